@@ -1,12 +1,15 @@
 #!/bin/sh
 # Offline setup after a fresh restore: pre-build what the checks reuse. Everything lives under /verif/.build.
-set -e
 cd "$(dirname "$0")"
 export CARGO_NET_OFFLINE=true
-mkdir -p .build evidence replays
-# Engine K: warm one target directory (compiles thiserror's proc-macro stack and the Kani std once)
-( cd kani && cargo kani --target-dir ../.build/kani-slot0 --only-codegen >/dev/null 2>&1 || true )
+mkdir -p .build evidence replays .cache
+# Engine K: warm one target directory (Kani std + thiserror's proc-macro stack), copy it to the other slots
+( cd kani && cargo kani --target-dir ../.build/kani-slot0 --only-codegen >/dev/null 2>&1 )
 for i in 1 2 3 4 5; do
-  [ -d .build/kani-slot$i ] || cp -r .build/kani-slot0 .build/kani-slot$i 2>/dev/null || true
+  [ -d .build/kani-slot$i ] || cp -r .build/kani-slot0 .build/kani-slot$i 2>/dev/null
 done
+# Engine M: native replay binary (dev + release) and the nightly MIR target directory
+( cd replay && CARGO_TARGET_DIR=../.build/replay cargo build --offline >/dev/null 2>&1; CARGO_TARGET_DIR=../.build/replay cargo build --offline --release >/dev/null 2>&1 )
+cargo +nightly rustc --offline --lib --manifest-path /repo/Cargo.toml --target-dir .build/mir -- -Zunpretty=mir >/dev/null 2>&1
 echo setup done
+exit 0
